@@ -220,15 +220,37 @@ def cross(ids, tier="quick"):
             shutil.rmtree(d, ignore_errors=True)
 
 
+def one_line(sid):
+    rp = os.path.join(SEEDED, sid, "README.md")
+    if not os.path.isfile(rp):
+        return ""
+    lines = [l.strip() for l in open(rp).read().splitlines()]
+    # prefer the change description: first bullet / sentence that is not a heading
+    for l in lines:
+        if l and not l.startswith("#") and not l.startswith("```") and len(l) > 25:
+            l = re.sub(r"[*`_]", "", l)
+            return (l[:230] + "…") if len(l) > 230 else l
+    return ""
+
+
 def table():
-    rows = []
+    """writes seeded/INDEX.md"""
+    out = ["# Seeded changes kept under /verif/seeded", "",
+           "Each directory: patch.diff (applies to /repo with `patch -p1` / `git apply`), the demonstration written by the independent",
+           "sub-agent (fails with the change, passes without), its README, and meta.json (what was run, verdict of the checks).",
+           "`python3 tools/seeded.py rerun` re-runs the property's check against every kept change; `... cross` runs all 20 checks.", "",
+           "| id | property | what the change does / needs (from the author's README) | own check | other checks that also catch it |", "|---|---|---|---|---|"]
     for sid in sorted(os.listdir(SEEDED)):
         mp = os.path.join(SEEDED, sid, "meta.json")
         if os.path.isfile(mp):
             m = json.load(open(mp))
-            rows.append((sid, m["property"], ", ".join("%s:%s" % (k, v["verdict"]) for k, v in sorted(m["checks"].items()))))
-    for r in rows:
-        print("| %s | %s | %s |" % r)
+            own = m["checks"].get(m["property"], {}).get("verdict", "?")
+            others = sorted(k for k, v in (m.get("cross") or {}).items() if v == "caught" and k != m["property"])
+            hist = m.get("history", "")
+            out.append("| %s | %s | %s | %s%s | %s |" % (sid, m["property"], one_line(sid).replace("|", "/"), own, (" (" + hist + ")") if hist else "", ", ".join(others)))
+    with open(os.path.join(SEEDED, "INDEX.md"), "w") as f:
+        f.write("\n".join(out) + "\n")
+    print("\n".join(out[-12:]))
 
 
 if __name__ == "__main__":
